@@ -19,7 +19,8 @@ RULE = ("(exact) problems of C01 pushed through rejection_sample with a Recordin
         "nonlinear row. (statistical) no interposition: >=4000 draws per row, whitened with the closed-form (a, A), "
         "tested against N(0, I) (KS of Mahalanobis distances, mean, covariance, lag-1 independence; failure threshold "
         "p<1e-9). Non-trivial: informative data (posterior variance < 0.5 prior variance for some parameter) and one "
-        "of the C01 non-trivial classes; distinct by fingerprint.")
+        "of the C01 non-trivial classes; distinct by fingerprint."
+        ' Also: the generators handed to the batches of a call must start from pairwise distinct states; inversion failures of the kernel at kappa > 1e12 are not judged.')
 SHARDS = {"quick": 4, "thorough": 16}
 BUDGET = {"quick": 75, "thorough": 800}
 
